@@ -931,8 +931,40 @@ class MeanBattery:
         if np.max(np.abs(got - wantm)) > 1e-9:
             viol.setdefault("cmat", {"obligation": f"{self.name}::copula-simulated-variance-is-sigma2-plus-the-adjustment", "bounded": self.name,
                                      "witness": {"margins": "CGMY y=1.3 x2 (sigma = 0), Clayton", "h": h, "simulated_variance_matrix": got.tolist(), "central_cell_covariance": wantm.tolist()}})
+        # copula chain, mean of every margin: process drift + sum over the 2-d states of x_k * rate  against the mean of the
+        # truncated margin (the real initialisation compensates with the MARGIN's cell masses, the states carry JOINT masses)
+        ev += 1
+        try:
+            from rpylib.process.markovchain.markovchainlevycopula import MarkovChainLevyCopula
+            from rpylib.product.product import Product
+            from rpylib.product.underlying import Spot
+            from rpylib.product.payoff import Vanilla, PayoffType
+            cmh = battery.copula_model(2, "clayton")
+            gc = CTMCUniformGrid(h=0.1, model=cmh)
+            pc = MarkovChainLevyCopula(levy_copula_model=cmh, grid=gc, method=SamplingMethod.INVERSION)
+            pc.initialisation(Product(Spot(), Vanilla(100.0, PayoffType.CALL), 1.0))
+            axes_, oc = gc.axes, gc.origin_coordinate.value
+            lo_ = lambda ax, i: 0.5 * (ax[max(i - 1, 0)] + ax[i])
+            hi_ = lambda ax, i: 0.5 * (ax[i] + ax[min(i + 1, len(ax) - 1)])
+            sx = np.zeros(2)
+            for i in range(len(axes_[0])):
+                for j in range(len(axes_[1])):
+                    if (i, j) != (oc[0], oc[1]):
+                        sx += float(pc.model.mass(a=(lo_(axes_[0], i), lo_(axes_[1], j)), b=(hi_(axes_[0], i), hi_(axes_[1], j)))) * np.array([axes_[0][i], axes_[1][j]])
+            dr = np.ravel(pc.process_drift())
+            for k in range(2):
+                nuk = cmh.models[k].levy_triplet.nu
+                l_, r_ = gc.truncations[k]
+                want = cmh.models[k].levy_triplet.a + quad(lambda x: x * float(nuk(x)), l_, 0)[0] + quad(lambda x: x * float(nuk(x)), 0, r_)[0]
+                got = float(dr[k] + sx[k])
+                if abs(got - want) > 1e-9:
+                    viol.setdefault(f"cmean{k}", {"obligation": f"{self.name}::copula-chain-mean-of-a-margin-equals-the-mean-of-the-truncated-margin", "bounded": self.name,
+                                                  "witness": {"model": "Clayton copula of two HEM margins", "h": 0.1, "margin": k, "chain_mean": got, "mean_of_the_truncated_margin": float(want),
+                                                              "sum_over_states_of_x_times_rate": float(sx[k])}})
+        except Exception as e:
+            viol.setdefault("cmean", {"obligation": f"{self.name}::copula-chain-mean-of-a-margin-equals-the-mean-of-the-truncated-margin", "bounded": self.name, "witness": {"exception": f"{type(e).__name__}: {e}"}})
         return {"name": self.name, "evaluations": ev, "distinct_nontrivial": ev, "violations": list(viol.values()), "samples": samples,
-                "bound": "battery models x h x {uniform, geometric} x refinement 0..1; one infinite-variation 2-d copula (CGMY y=1.3, Clayton), h=0.1"}
+                "bound": "battery models x h x {uniform, geometric} x refinement 0..1; one infinite-variation 2-d copula (CGMY y=1.3, Clayton), h=0.1; one 2-d copula chain mean (HEM margins, Clayton, h=0.1)"}
 
     def replay(self, rec):
         r = self.run("quick", 0)
